@@ -16,6 +16,6 @@ except Exception as e:
 json.dump(j,open(d+'/eval.json','w'),indent=1)
 print(d, 'valid=',j.get('candidate_valid'), 'own_quick=',j.get('caught_by_own_check_quick'),'own_thorough=',j.get('caught_by_own_check_thorough'),'any=',j.get('caught_by_any'))
 for k,v in j.get('checks',{}).items():
-    if v['exit']!=0: print('    ',k,'exit',v['exit'],v['wall_s'],'s',(v['lines'] or [''])[0][:200])
+    if v['exit']!=0: print('    ',k,'exit',v['exit'],(v['lines'] or [''])[0][:200])
 PY
 done
